@@ -6,6 +6,7 @@ import (
 	"encoding/binary"
 	"errors"
 	"fmt"
+	"github.com/cbeuw/Cloak/internal/verifhook"
 	"io"
 	"net"
 	"net/http"
@@ -243,6 +244,7 @@ func dispatchConnection(conn net.Conn, sta *State) {
 		goWeb()
 		return
 	}
+	verifhook.Point("disp.userResolved")
 
 	sesh, existing, err := user.GetSession(ci.SessionId, seshConfig)
 	if err != nil {
